@@ -147,18 +147,19 @@ func main() {
 
 func programs(c *vh.Check) {
 	cases := append(bkcat.Cases(), edgeCases()...)
-	curves := []ecc.ID{ecc.BN254, ecc.BLS12_377, ecc.BW6_761}
-	if c.Tier == "thorough" {
-		curves = []ecc.ID{ecc.BN254, ecc.BLS12_377, ecc.BLS12_381, ecc.BLS24_315, ecc.BLS24_317, ecc.BW6_633, ecc.BW6_761}
-	}
+	curves := []ecc.ID{ecc.BN254, ecc.BLS12_377, ecc.BLS12_381, ecc.BLS24_315, ecc.BLS24_317, ecc.BW6_633, ecc.BW6_761}
 	type job struct {
 		cse     bk.Case
 		cv      ecc.ID
 		backend string
 	}
 	var jobs []job
+	keepQuick := map[string]bool{"commit-two": true, "cubic-1pub": true, "zero-pub": true, "single-gate": true, "three-commitments": true}
 	for _, cse := range cases {
 		for _, cv := range curves {
+			if c.Quick() && cv != ecc.BN254 && !keepQuick[cse.Name] {
+				continue // quick: full catalogue on bn254, representative circuits on the other six curves
+			}
 			for _, b := range []string{"groth16", "plonk"} {
 				jobs = append(jobs, job{cse, cv, b})
 			}
